@@ -34,25 +34,34 @@ import (
 	"go.uber.org/zap"
 )
 
-func c19ValidAction(line []byte) bool {
+// valid action line -> its _index
+func c19ValidAction(line []byte) (string, bool) {
 	var m map[string]map[string]interface{}
 	if !json.Valid(line) || json.Unmarshal(line, &m) != nil || len(m) != 1 {
-		return false
+		return "", false
 	}
 	for op, meta := range m {
 		if op != "index" && op != "create" {
-			return false
+			return "", false
 		}
-		if _, ok := meta["_index"].(string); !ok {
-			return false
-		}
+		idx, ok := meta["_index"].(string)
+		return idx, ok
 	}
-	return true
+	return "", false
+}
+
+// index_format "c19-%-%" with index_values [svc, @time]: the index of an event is built from ITS svc
+func c19IndexOK(index, route string) bool {
+	if route == "" {
+		route = "not_set"
+	}
+	want := "c19-" + c19Norm(route) + "-"
+	return strings.HasPrefix(index, want) && len(index) == len(want)+len("2006-01-02")
 }
 
 // abstraction function: bulk body -> ids. A document line is a line that is a JSON object with a numeric c19id;
 // the lines in front of it must be exactly one valid action line; anything else is a framing violation.
-func c19ParseBulk(body []byte, orig map[int][]byte) c19Req {
+func c19ParseBulk(body []byte, orig map[int][]byte, route map[int]string) c19Req {
 	r := c19Req{IDs: []int{}}
 	if len(body) == 0 {
 		return r
@@ -69,8 +78,12 @@ func c19ParseBulk(body []byte, orig map[int][]byte) c19Req {
 			pending = append(pending, line)
 			continue
 		}
-		if len(pending) != 1 || !c19ValidAction(pending[0]) {
+		if len(pending) != 1 {
 			r.Framing = append(r.Framing, c19Framing{Where: "action_line", ID: id, Text: c19Clip(string(bytes.Join(pending, []byte("\\n"))))})
+		} else if index, ok := c19ValidAction(pending[0]); !ok {
+			r.Framing = append(r.Framing, c19Framing{Where: "action_line", ID: id, Text: c19Clip(string(pending[0]))})
+		} else if rt, known := route[id]; known && !c19IndexOK(index, rt) {
+			r.Routing = append(r.Routing, c19Framing{Where: "_index", ID: id, Text: c19Clip(fmt.Sprintf("got %q for svc %q", index, rt))})
 		}
 		pending = nil
 		r.IDs = append(r.IDs, id)
@@ -108,7 +121,7 @@ func (w *c19ESWorker) run(c *c19Case) (res c19CaseRes) {
 	for bi, b := range c.Batches {
 		x := c19MakeEvents(b, &seq)
 		defer x.release()
-		w.sink.arm(c.Pats[bi], x.orig, c19Fail(c, bi))
+		w.sink.arm(c.Pats[bi], x, c19Fail(c, bi))
 		acked := c19Feed(p.Out, x, ctl)
 		res.Batches = append(res.Batches, c19BatchRes{Reqs: w.sink.take(), Acked: acked})
 		if !acked {
@@ -162,6 +175,7 @@ type c19Req struct {
 	Status  int          `json:"st"`
 	Framing []c19Framing `json:"framing,omitempty"`
 	DocDiff []int        `json:"doc_diff,omitempty"`
+	Routing []c19Framing `json:"routing,omitempty"` // routing value of a record is not the one of its own event
 	Bytes   int          `json:"bytes"`
 }
 
@@ -203,6 +217,38 @@ func c19Val(class int) (string, bool) {
 	default:
 		return `"a\u0001\tb"`, true
 	}
+}
+
+// the same value as the raw string a plugin reads with AsString(); "" when absent or empty
+func c19ValRaw(class int) string {
+	switch class {
+	case 0:
+		return "svc-a"
+	case 1, 2:
+		return ""
+	case 3:
+		return "a\xff\xfeb"
+	case 4:
+		return "ü %z ☃"
+	case 5:
+		return `a"b`
+	case 6:
+		return `a\b`
+	case 7:
+		return "a\nb"
+	case 8:
+		return "x\"}}\n{\"index\":{\"_index\":\"y"
+	default:
+		return "a\x01\tb"
+	}
+}
+
+// a string as encoding/json hands it back (every invalid UTF-8 byte -> U+FFFD), for comparisons with decoded JSON
+func c19Norm(s string) string {
+	b, _ := json.Marshal(s)
+	var out string
+	_ = json.Unmarshal(b, &out)
+	return out
 }
 
 func c19Msg(id int) string {
@@ -292,16 +338,17 @@ func c19Rejects(pat [][]int, ids []int) bool {
 // ---- capture: what the sink saw for the batch in flight ------------------------------------------------
 
 type c19Capture struct {
-	mu   sync.Mutex
-	pat  [][]int
-	fail bool
-	orig map[int][]byte
-	reqs []c19Req
+	mu    sync.Mutex
+	pat   [][]int
+	fail  bool
+	orig  map[int][]byte
+	route map[int]string // id -> the event's own routing value ("" = absent or empty)
+	reqs  []c19Req
 }
 
-func (s *c19Capture) arm(pat [][]int, orig map[int][]byte, fail bool) {
+func (s *c19Capture) arm(pat [][]int, x *c19Events, fail bool) {
 	s.mu.Lock()
-	s.pat, s.orig, s.fail, s.reqs = pat, orig, fail, nil
+	s.pat, s.orig, s.route, s.fail, s.reqs = pat, x.orig, x.route, fail, nil
 	s.mu.Unlock()
 }
 
@@ -314,7 +361,7 @@ func (s *c19Capture) take() []c19Req {
 // in-process HTTP sink: parses every body with the sink-specific abstraction function, answers 413 by pattern
 type c19HTTPSink struct {
 	c19Capture
-	parse    func(body []byte, orig map[int][]byte) c19Req
+	parse    func(body []byte, orig map[int][]byte, route map[int]string) c19Req
 	okStatus int
 	okBody   string
 }
@@ -322,7 +369,7 @@ type c19HTTPSink struct {
 func (s *c19HTTPSink) ServeHTTP(w http.ResponseWriter, req *http.Request) {
 	body, _ := io.ReadAll(req.Body)
 	s.mu.Lock()
-	r := s.parse(body, s.orig)
+	r := s.parse(body, s.orig, s.route)
 	r.Bytes = len(body)
 	if r.IDs == nil {
 		r.IDs = []int{}
@@ -389,6 +436,7 @@ var c19Values = map[string]int{"gomaxprocs": 1, "capacity": 64}
 type c19Events struct {
 	evs   []*pipeline.Event
 	orig  map[int][]byte
+	route map[int]string
 	roots []*insaneJSON.Root
 }
 
@@ -401,10 +449,11 @@ func (x *c19Events) release() {
 // the events of one batch; the last one carries a Size that seals the batch through batch_size_bytes, so batch
 // boundaries are exactly the case's, without any timing
 func c19MakeEvents(b []c19Ev, seq *uint64) *c19Events {
-	x := &c19Events{orig: map[int][]byte{}}
+	x := &c19Events{orig: map[int][]byte{}, route: map[int]string{}}
 	for i, e := range b {
 		js := c19EventJSON(e)
 		x.orig[e.ID] = js
+		x.route[e.ID] = c19ValRaw(e.Val)
 		root := insaneJSON.Spawn()
 		x.roots = append(x.roots, root)
 		if err := root.DecodeBytes(js); err != nil {
